@@ -647,6 +647,7 @@ def visible(e, rels):
     return kids()
 
 
+LINK_TAG_RE = re.compile(r'<a href="[^"]*">|</a>')
 PREFIX_RE = re.compile(r"^((?:foot|end)note[^\t]*\)\t)?(\t*(?:--|[0-9A-Za-z-]+\))\t)?")
 
 
@@ -663,6 +664,25 @@ def o_par_text(ctx):
                         rels = f.rels
                     except Exception:  # noqa: BLE001
                         continue
+                    # the expected content is read from the ORIGINAL part as stored in the archive, not
+                    # from the merged tree the library exposes (round-5 seed C02-haspr-suffix-skips-docpr:
+                    # a merge that reorders inline content is invisible in the merged tree): merging
+                    # never adds, drops or reorders w:p elements, so the k-th w:p of the merged tree
+                    # is the k-th w:p of the stored part
+                    orig_of = {}
+                    try:
+                        import io as _io
+                        import zipfile as _zf
+                        oroot = etree.fromstring(_zf.ZipFile(_io.BytesIO(ctx["data"])).read(f.path))
+                        wq_ = root.nsmap.get("w")
+                        if wq_ and oroot.nsmap.get("w") == wq_:
+                            mp = list(root.iter(f"{{{wq_}}}p"))
+                            op = list(oroot.iter(f"{{{wq_}}}p"))
+                            if len(mp) == len(op):
+                                orig_of = {id(a): b for a, b in zip(mp, op)}
+                                orig_of["_keep"] = (mp, op)    # lxml proxies must stay alive: ids
+                    except Exception:  # noqa: BLE001
+                        orig_of = {}
                     last = -1
                     # exactly once: no source paragraph is pointed at by two records, and records
                     # detached from the tree (copies made for merged cells) exist only where the
@@ -704,6 +724,7 @@ def o_par_text(ctx):
                         got = "".join(p.run_strings)
                         try:
                             exp = "".join(visible(k, rels) for k in p.elem)
+                            exp_orig = "".join(visible(k, rels) for k in orig_of[id(p.elem)]) if id(p.elem) in orig_of else None
                         except Exception:  # noqa: BLE001
                             continue
                         m = PREFIX_RE.match(got)
@@ -715,6 +736,13 @@ def o_par_text(ctx):
                         if exp not in cands and not any(c.endswith(exp) and PREFIX_RE.fullmatch(c[:len(c) - len(exp)]) for c in [got]):
                             out.append(("par_text", f"{f.path}: paragraph text {got[:90]!r} is not [label][marker] + visible content {exp[:90]!r}"))
                             return out
+                        if exp_orig is not None:
+                            # against the STORED part: adjacent links with one target are documented to
+                            # come out as one link (C06, C10), so link tags are left out of this comparison
+                            unl = lambda x: LINK_TAG_RE.sub("", x)  # noqa: E731
+                            if not unl(got).endswith(unl(exp_orig)):
+                                out.append(("par_text", f"{f.path}: paragraph text {got[:90]!r} does not carry the visible content of the stored paragraph {exp_orig[:90]!r} in document order"))
+                                return out
             finally:
                 d.close()
     return out
